@@ -12,6 +12,7 @@ package c11
 import (
 	"encoding/xml"
 	"fmt"
+	"math/rand"
 	"sort"
 	"strings"
 	"sync"
@@ -98,6 +99,7 @@ type lane struct {
 	pts map[string]bool
 
 	controlFails map[string]bool
+	bigSize      int // when > 0 the new write of the operation has this many bytes (timed-kill lane)
 }
 
 func (l *lane) gwCfg(gated bool) gw.Config {
@@ -169,6 +171,9 @@ func (l *lane) prepare(op string, cl *s3c.Client) (*prepared, error) {
 		return nil
 	}
 	bw := l.ws.Mk(true)
+	if l.bigSize > 0 {
+		bw = l.ws.MkSize(l.bigSize)
+	}
 	bTags := map[string]string{"gen": "b", "k2": "v2"}
 	switch op {
 	case "PUT-new":
@@ -768,6 +773,75 @@ func (l *lane) crashCase(id, op string, j int, wantName string) {
 	}
 }
 
+// timedKills kills the gateway at PRNG-chosen instants (not at hook points) while an operation with a large body
+// is in flight. The instant is drawn from the duration an uncrashed run of the same operation took; which step it
+// lands in is not controlled, so this lane only adds reach between the instrumented steps.
+func timedKills(c *ev.Ctx, cf cfg, ops []string, n int, seed int64) {
+	st, err := gw.NewStore(fx.UniqueDir("c11t-" + cf.name))
+	if err != nil {
+		c.Inconclusive(err.Error())
+		return
+	}
+	ctl, err := gate.New(gw.Scratch())
+	if err != nil {
+		c.Inconclusive(err.Error())
+		return
+	}
+	defer ctl.Close()
+	l := &lane{c: c, cfg: cf, st: st, ctl: ctl, ws: wid.NewSet(), pts: map[string]bool{}, controlFails: map[string]bool{}, bigSize: 6 << 20}
+	r := rand.New(rand.NewSource(seed))
+	dur := map[string]time.Duration{}
+	for i := 0; i < n; i++ {
+		op := ops[r.Intn(len(ops))]
+		id := fmt.Sprintf("T/%s/%s/%d", cf.name, op, i)
+		frac := r.Float64()
+		if !c.Want(id) {
+			continue
+		}
+		g, err := gw.Start(l.gwCfg(false))
+		if err != nil {
+			c.Inconclusive("gateway start: " + err.Error())
+			continue
+		}
+		cl := s3c.New(g.Addr, gw.RootAK, gw.RootSK)
+		p, err := l.prepare(op, cl)
+		if err != nil {
+			g.Stop()
+			c.Inconclusive("prepare: " + err.Error())
+			continue
+		}
+		d, known := dur[op]
+		if !known {
+			// control run: measure and judge without a kill
+			t0 := time.Now()
+			resp := p.run(cl)
+			dur[op] = time.Since(t0)
+			if resp.Err == nil && resp.Status < 300 {
+				l.judge(id, op, "no-crash", 0, p, cl, true)
+			}
+			g.Stop()
+			continue
+		}
+		ch := make(chan *s3c.Resp, 1)
+		go func() { ch <- p.run(cl) }()
+		time.Sleep(time.Duration(frac * float64(d)))
+		g.Kill()
+		resp := <-ch
+		acknowledged := resp.Err == nil && resp.Status >= 200 && resp.Status < 300
+		c.Eval(1)
+		c.Add("timed_kills", 1)
+		g2, err := gw.Start(l.gwCfg(false))
+		if err != nil {
+			c.Violation(fmt.Sprintf("%s@timed-kill:gateway-does-not-restart[%s]", op, cf.name), id, map[string]any{"error": err.Error()})
+			continue
+		}
+		cl2 := s3c.New(g2.Addr, gw.RootAK, gw.RootSK)
+		l.judge(id, op, "timed-kill", 0, p, cl2, acknowledged)
+		g2.Stop()
+		c.Distinct(fmt.Sprintf("T|%s|%s|acked=%v|decile=%d", cf.name, op, acknowledged, int(frac*10)))
+	}
+}
+
 func runLane(c *ev.Ctx, cf cfg, ops []string) {
 	st, err := gw.NewStore(fx.UniqueDir("c11-" + cf.name))
 	if err != nil {
@@ -832,6 +906,17 @@ func Run(c *ev.Ctx) int {
 		}
 	}
 	wg.Wait()
+	if c.Thorough() {
+		rt := c.Rng("timed")
+		for _, cf := range cfgs {
+			wg.Add(1)
+			go func(cf cfg, seed int64) {
+				defer wg.Done()
+				timedKills(c, cf, []string{"PUT-overwrite", "PUT-overwrite-versioned", "COPY-onto", "MPU-complete-overwrite", "UPLOAD-PART-overwrite", "PUT-new"}, 100, seed)
+			}(cf, rt.Int63())
+		}
+		wg.Wait()
+	}
 	c.Set("exhaustive", true)
 	c.Set("exhaustive_over", "every hook hit of every listed operation under every listed configuration (single crash, single request in flight)")
 	return c.Finish("fault enumeration: operation kind x storage configuration x index j of the operation's hook-hit trace; gateway killed with SIGKILL while held at hit j; distinct = (configuration, operation, j:point) with the kill confirmed and the post-restart oracle executed by a new process", 40)
